@@ -109,3 +109,56 @@ def toks_text(toks, rng=None):
         if s == ']':
             infeat = False
     return ''.join(out)
+
+
+# ---------------------------------------------------------------- independent reader text -> projected value
+def parse_toks(toks):
+    """recursive descent over lexer tokens; used for rule *patterns* and harness-side bookkeeping only
+    (never as the oracle: that is CatReaderOps!Read in TLA+)."""
+    pos = [0]
+
+    def peek():
+        return toks[pos[0]]['s'] if pos[0] < len(toks) else None
+
+    def take():
+        t = toks[pos[0]]
+        pos[0] += 1
+        return t
+
+    def operand():
+        s = peek()
+        if s in ('(', '<'):
+            take()
+            c = cat()
+            close = take()['s']
+            if (s, close) not in (('(', ')'), ('<', '>')):
+                raise ValueError('bracket mismatch')
+            return c
+        base = take()['s']
+        if peek() == '[':
+            take()
+            f = take()['f']
+            if take()['s'] != ']':
+                raise ValueError('feature not closed')
+            return {'k': 'A', 'b': base, 'f': f}
+        return {'k': 'A', 'b': base, 'f': NOF}
+
+    def cat():
+        l = operand()
+        if peek() in ('/', '\\', '|'):
+            s = take()['s']
+            r = operand()
+            return {'k': 'F', 'l': l, 's': s, 'r': r}
+        return l
+    c = cat()
+    if pos[0] != len(toks):
+        raise ValueError('trailing tokens')
+    return c
+
+
+def parse_text(text):
+    return parse_toks(lex_cat(text)[0])
+
+
+def leaves(j):
+    return [j] if j['k'] == 'A' else leaves(j['l']) + leaves(j['r'])
